@@ -77,7 +77,7 @@ theorem decTxKernel_enc (c : Cfg) (k : TxKernel) (h : k.WF c.nrd) (rest : Bytes)
     decTxKernel c (encTxKernel c.ver .full k ++ rest) = .ok (k, rest) := by
   obtain ⟨hf, he, hs⟩ := h
   simp only [decTxKernel, encTxKernel, List.append_assoc, decKernelFeatures_enc c _ hf,
-    decCommit_write _ he, decSig_write _ hs]
+    decCommit_write _ he, decSig_write _ hs, andThen_ok]
 
 theorem decOutputFeatures_enc (f : OutputFeatures) (rest : Bytes) :
     decOutputFeatures (encOutputFeatures f ++ rest) = .ok (f, rest) := by
@@ -85,11 +85,11 @@ theorem decOutputFeatures_enc (f : OutputFeatures) (rest : Bytes) :
 
 theorem decInput_enc (i : Input) (h : i.WF) (rest : Bytes) :
     decInput (encInput i ++ rest) = .ok (i, rest) := by
-  simp only [decInput, encInput, List.append_assoc, decOutputFeatures_enc, decCommit_write _ h]
+  simp only [decInput, encInput, List.append_assoc, decOutputFeatures_enc, decCommit_write _ h, andThen_ok]
 
 theorem decOutputId_enc (o : OutputId) (h : o.WF) (rest : Bytes) :
     decOutputId (encOutputId o ++ rest) = .ok (o, rest) := by
-  simp only [decOutputId, encOutputId, List.append_assoc, decOutputFeatures_enc, decCommit_write _ h]
+  simp only [decOutputId, encOutputId, List.append_assoc, decOutputFeatures_enc, decCommit_write _ h, andThen_ok]
 
 theorem decCommitWrapper_enc (cm : Bytes) (h : cm.length = COMMIT_SIZE) (rest : Bytes) :
     decCommitWrapper (encCommitWrapper cm ++ rest) = .ok (cm, rest) := decCommit_write cm h rest
@@ -107,13 +107,12 @@ theorem decRangeProof_enc (p : RangeProof) (h : p.WF) (rest : Bytes) :
   have hrf := readFixed_write proof MAX_PROOF_SIZE h2 hcap rest
   simp only [writeFixed] at hrf
   have hsub : MAX_PROOF_SIZE - proof.length = 0 := by omega
-  rw [decRangeProof, encRangeProof, writeBytes]
-  simp only [htake, List.append_assoc]
-  rw [readU64_write _ hlen]
-  simp only [hmin, hrf, hsub, List.replicate_zero, List.append_nil]
+  simp only [decRangeProof, encRangeProof, writeBytes, htake, List.append_assoc,
+    readU64_write _ hlen, andThen_ok, hmin, hrf, hsub, List.replicate_zero, List.append_nil]
 
 theorem decOutput_enc (o : Output) (h : o.WF) (rest : Bytes) :
     decOutput (encOutput o ++ rest) = .ok (o, rest) := by
-  simp only [decOutput, encOutput, List.append_assoc, decOutputId_enc _ h.1, decRangeProof_enc _ h.2]
+  simp only [decOutput, encOutput, List.append_assoc, decOutputId_enc _ h.1, decRangeProof_enc _ h.2,
+    andThen_ok]
 
 end GV.Ser
